@@ -1,4 +1,5 @@
 import SamplyModel.Lemmas.ConvHelpers
+import SamplyModel.Lemmas.ConvThread
 /-!
 The converter run simulates the specification fold `ConvSpec.accStep` (C01): along every history
 
@@ -107,7 +108,10 @@ structure Sim (cfg : Config) (s : St) (st : Last × List Acc) : Prop where
   inv : InvA s
   sok : SamplesOK s.cfg.reuse (psk s.pents) (tsk s.tents) (buffered s)
   htl : ∀ a b, tl s a b = lastGet st.1 a b
-  buf : List.Perm ((buffered s).map proj) (st.2.map (fun a => (a.pid, a.tid, a.t - cfg.ref)))
+  /-- the recorded (not synthesized) buffered samples are the accepted samples -/
+  buf : List.Perm (((buffered s).filter (fun u => !u.synth)).map proj) (st.2.map (fun a => (a.pid, a.tid, a.t - cfg.ref)))
+  /-- recorded samples have weight 1 -/
+  w1 : ∀ u ∈ buffered s, u.synth = false → u.weight = 1
 
 theorem SamplesOK.mono {r : Bool} {P P' : List Nat} {T T' : List (Nat × Nat)} {us us' : List USample}
     (h : SamplesOK r P T us) (hP : P <+: P') (hT : T <+: T') (hsub : ∀ u ∈ us', u ∈ us) :
@@ -126,7 +130,8 @@ theorem Sim.step {cfg : Config} {s s' : St} {st : Last × List Acc} {l' : Last} 
     rw [g.cfg]
     exact h.sok.mono g.extP g.extT (fun u hu => g.buf.mem_iff.mp hu)
   htl := htl
-  buf := (g.buf.map proj).trans h.buf
+  buf := ((g.buf.filter _).map proj).trans h.buf
+  w1 := fun u hu => h.w1 u (g.buf.mem_iff.mp hu)
 
 theorem Sim.goodT {cfg : Config} {s s' : St} {st : Last × List Acc} (h : Sim cfg s st) (g : GoodT s s') :
     Sim cfg s' st :=
@@ -139,6 +144,7 @@ theorem Sim.init (cfg : Config) : Sim cfg (St.init cfg) ([], []) where
   sok := fun u hu => by simp [St.init, buffered, bufP] at hu
   htl := fun _ _ => rfl
   buf := List.Perm.refl _
+  w1 := fun u hu => by simp [St.init, buffered, bufP] at hu
 
 /-! ## the SAMPLE step -/
 
@@ -153,16 +159,16 @@ theorem ProcOK.thrOf {r : Bool} {P : List Nat} {T : List (Nat × Nat)} {p : Proc
   · have hm := alGet_mem ht
     exact ⟨hp.thr _ hm, fun hr => ⟨(hp.bind hr).2.2 _ hm, (hp.bind hr).1⟩⟩
 
-theorem put_append {s : St} {p p0 : ProcC} {u : USample} (hinv : InvA s)
-    (hget : alGet s.procs p.pid = some p0) (hs : p.samples = p0.samples ++ [u])
+theorem put_append {s : St} {p p0 : ProcC} {us : List USample} (hinv : InvA s)
+    (hget : alGet s.procs p.pid = some p0) (hs : p.samples = p0.samples ++ us)
     (hok : ProcOK s.cfg.reuse (psk s.pents) (tsk s.tents) p) :
-    InvA (putProc s p) ∧ List.Perm (buffered (putProc s p)) (buffered s ++ [u]) := by
+    InvA (putProc s p) ∧ List.Perm (buffered (putProc s p)) (buffered s ++ us) := by
   refine ⟨put_inv hinv hok, ?_⟩
   unfold buffered putProc
   simp only
   rw [bufP_alPut, hs]
   refine List.Perm.trans ?_
-    (List.Perm.append_right [u] (List.Perm.append_left _ (bufP_perm_get hinv.nodup hget).symm))
+    (List.Perm.append_right us (List.Perm.append_left _ (bufP_perm_get hinv.nodup hget).symm))
   simp only [List.append_assoc]
   exact List.Perm.append_left _ (List.Perm.append_left _ List.perm_append_comm)
 
@@ -197,34 +203,91 @@ theorem putThread_pid (p : ProcC) (tid : Nat) (th : ThreadC) : (putThread p tid 
 theorem putThread_samples (p : ProcC) (tid : Nat) (th : ThreadC) : (putThread p tid th).samples = p.samples := by
   unfold putThread; split <;> rfl
 
-theorem sample_put_spec {s2 : St} {p2 : ProcC} {tid t : Nat} {th : ThreadC} (u : USample) (hinv : InvA s2)
-    (hp2 : alGet s2.procs p2.pid = some p2) (hth : thrOf p2 tid = some th) :
-    let p := putThread p2 tid { th with lastTs := some t }
-    let s3 := putProc s2 { p with samples := p.samples ++ [u] }
-    InvA s3 ∧ List.Perm (buffered s3) (buffered s2 ++ [u]) ∧
-      ∀ a b, tl s3 a b = if a = p2.pid ∧ b = tid then some t else tl s2 a b := by
-  intro p s3
-  have hok2 := (hinv.get hp2).2
-  have hpid : p.pid = p2.pid := putThread_pid _ _ _
-  have hsamp : p.samples = p2.samples := putThread_samples _ _ _
-  have hokp : ProcOK s2.cfg.reuse (psk s2.pents) (tsk s2.tents) p := hok2.putThread hth rfl
-  obtain ⟨hinv3, hbuf3⟩ := put_append (u := u) (p0 := p2) hinv
-    (p := { p with samples := p.samples ++ [u] }) (by show alGet s2.procs p.pid = _; rw [hpid]; exact hp2)
-    (by show p.samples ++ [u] = _; rw [hsamp]) (hokp.congr rfl rfl rfl rfl rfl)
-  refine ⟨hinv3, hbuf3, ?_⟩
+theorem commit_spec {s2 : St} {p2 : ProcC} {tid : Nat} {th : ThreadC} (r : ThreadC × List USample × Bool)
+    (hinv : InvA s2) (hp2 : alGet s2.procs p2.pid = some p2) (hth : thrOf p2 tid = some th) (hh : r.1.h = th.h) :
+    InvA (commitThread s2 p2 tid r) ∧ (commitThread s2 p2 tid r).cfg = s2.cfg ∧
+      (commitThread s2 p2 tid r).pents = s2.pents ∧ (commitThread s2 p2 tid r).tents = s2.tents ∧
+      List.Perm (buffered (commitThread s2 p2 tid r)) (buffered s2 ++ r.2.1) ∧
+      ∀ a b, tl (commitThread s2 p2 tid r) a b = if a = p2.pid ∧ b = tid then r.1.lastTs else tl s2 a b := by
+  unfold commitThread
+  generalize hb : (s2.bad || !r.2.2) = bad
+  have hinv' : InvA { s2 with bad := bad } := hinv
+  have hp2' : alGet ({ s2 with bad := bad } : St).procs p2.pid = some p2 := hp2
+  generalize hs2 : ({ s2 with bad := bad } : St) = s2' at hinv' hp2'
+  have hcfg : s2'.cfg = s2.cfg := by subst hs2; rfl
+  have hpe : s2'.pents = s2.pents := by subst hs2; rfl
+  have hte : s2'.tents = s2.tents := by subst hs2; rfl
+  have hbuf : buffered s2' = buffered s2 := by subst hs2; rfl
+  have htl0 : ∀ a b, tl s2' a b = tl s2 a b := by subst hs2; intro a b; rfl
+  have hok2 := (hinv'.get hp2').2
+  have hpid : (putThread p2 tid r.1).pid = p2.pid := putThread_pid _ _ _
+  have hsamp : (putThread p2 tid r.1).samples = p2.samples := putThread_samples _ _ _
+  have hokp : ProcOK s2'.cfg.reuse (psk s2'.pents) (tsk s2'.tents) (putThread p2 tid r.1) := hok2.putThread hth hh
+  obtain ⟨hinv3, hbuf3⟩ := put_append (us := r.2.1) (p0 := p2) hinv'
+    (p := { putThread p2 tid r.1 with samples := (putThread p2 tid r.1).samples ++ r.2.1 })
+    (by show alGet s2'.procs (putThread p2 tid r.1).pid = _; rw [hpid]; exact hp2')
+    (by show (putThread p2 tid r.1).samples ++ r.2.1 = _; rw [hsamp]) (hokp.congr rfl rfl rfl rfl rfl)
+  refine ⟨hinv3, hcfg, hpe, hte, by rw [← hbuf]; exact hbuf3, ?_⟩
   intro a b
   rw [put_tl]
-  show (if a = p.pid then lastOf { p with samples := p.samples ++ [u] } b else tl s2 a b) = _
-  have hl : lastOf { p with samples := p.samples ++ [u] } b = if b = tid then some t else lastOf p2 b :=
-    (lastOf_congr (p := p) rfl rfl rfl b).trans (lastOf_putThread p2 tid _ b)
-  rw [hl, hpid]
+  show (if a = (putThread p2 tid r.1).pid then
+      lastOf { putThread p2 tid r.1 with samples := (putThread p2 tid r.1).samples ++ r.2.1 } b else tl s2' a b) = _
+  have hl : lastOf { putThread p2 tid r.1 with samples := (putThread p2 tid r.1).samples ++ r.2.1 } b =
+      if b = tid then r.1.lastTs else lastOf p2 b :=
+    (lastOf_congr (p := putThread p2 tid r.1) rfl rfl rfl b).trans (lastOf_putThread p2 tid _ b)
+  rw [hl, hpid, htl0]
   by_cases ha : a = p2.pid
   · subst ha
-    by_cases hb : b = tid
-    · simp [hb]
-    · simp only [if_true, hb, if_false, and_false]
+    by_cases hb' : b = tid
+    · simp [hb']
+    · simp only [if_true, hb', if_false, and_false]
       unfold tl; rw [tlP_of_get hp2]
   · simp only [ha, if_false, false_and]
+
+theorem filter_synth_append_synth (l us : List USample) (h : ∀ u ∈ us, u.synth = true) :
+    (l ++ us).filter (fun u => !u.synth) = l.filter (fun u => !u.synth) := by
+  rw [List.filter_append]
+  have : us.filter (fun u => !u.synth) = [] := by
+    rw [List.filter_eq_nil_iff]; intro u hu; simp [h u hu]
+  rw [this, List.append_nil]
+
+/-- a record that only touches the thread object bound to (pid, tid) — keeping handle and `lastTs` — and
+emits synthesized samples only keeps the simulation -/
+theorem commit_sim {cfg : Config} {s s2 : St} {st : Last × List Acc} (hs2 : Sim cfg s2 st) {p2 : ProcC} {pid tid : Nat}
+    {th : ThreadC} (r : ThreadC × List USample × Bool)
+    (hp2 : alGet s2.procs pid = some p2) (hpid2 : p2.pid = pid) (hth : thrOf p2 tid = some th)
+    (hh : r.1.h = th.h) (hl : r.1.lastTs = th.lastTs)
+    (htag : ∀ u ∈ r.2.1, (u.th = th.h ∧ u.gpid = pid ∧ u.gtid = tid) ∧ u.synth = true) :
+    Sim cfg (commitThread s2 p2 tid r) st := by
+  have _ := s
+  obtain ⟨hinv3, hcfg3, hpe3, hte3, hbuf3, htl3⟩ := commit_spec r hs2.inv (by rw [hpid2]; exact hp2) hth hh
+  have hok2 := (hs2.inv.get hp2).2
+  obtain ⟨hthlt, hthbind⟩ := hok2.thrOf hth
+  refine ⟨hcfg3.trans hs2.hcfg, hinv3, ?_, ?_, ?_, ?_⟩
+  · rw [hcfg3, hpe3, hte3]
+    intro u' hu'
+    rcases List.mem_append.mp (hbuf3.mem_iff.mp hu') with hu' | hu'
+    · exact hs2.sok u' hu'
+    · obtain ⟨⟨e1, e2, e3⟩, _⟩ := htag u' hu'
+      rw [e1, e2, e3]
+      refine ⟨hthlt, fun hr => ⟨p2.h, ?_⟩⟩
+      have := hthbind hr
+      rw [hpid2] at this
+      exact this
+  · intro a b
+    refine (htl3 a b).trans ?_
+    rw [hpid2]
+    by_cases hab : a = pid ∧ b = tid
+    · simp only [hab, and_self, if_true]
+      rw [hl, ← hs2.htl]; unfold tl; rw [tlP_of_get hp2]; unfold lastOf; rw [hth]; rfl
+    · simp only [hab, if_false]
+      exact hs2.htl a b
+  · refine (((hbuf3.filter _).map proj).trans ?_).trans hs2.buf
+    rw [filter_synth_append_synth _ _ (fun u hu => (htag u hu).2)]
+  · intro u' hu' hsy
+    rcases List.mem_append.mp (hbuf3.mem_iff.mp hu') with hu' | hu'
+    · exact hs2.w1 u' hu' hsy
+    · rw [(htag u' hu').2] at hsy; cases hsy
 
 theorem step_sample_sim {cfg : Config} {s : St} {st : Last × List Acc} (h : Sim cfg s st)
     (pid tid t : Nat) (km : Bool) (period ip : Nat) (chain : List Nat) :
@@ -253,29 +316,76 @@ theorem step_sample_sim {cfg : Config} {s : St} {st : Last × List Acc} (h : Sim
     · simp only [hrep, if_false]
       have hok2 := (hs2.inv.get hp2).2
       obtain ⟨hthlt, hthbind⟩ := hok2.thrOf hth
-      obtain ⟨hinv3, hbuf3, htl3⟩ := sample_put_spec (t := t) { th := th.h, t := conv s2 t, tmono := t, cpu := period, stack := sampleStack s2.cfg km ip chain, tlabel := threadLabel th.name pid tid, gpid := pid, gtid := tid } hs2.inv (by rw [hpid2]; exact hp2) hth
-      refine ⟨hs2.hcfg, hinv3, ?_, ?_, ?_⟩
-      · intro u' hu'
-        rcases List.mem_append.mp (hbuf3.mem_iff.mp hu') with hu' | hu'
-        · exact hs2.sok u' hu'
-        · simp only [List.mem_singleton] at hu'
-          subst hu'
-          refine ⟨hthlt, fun hr => ⟨p2.h, ?_⟩⟩
-          have := hthbind hr
+      generalize hr : sampleThread s2 th pid tid t period (sampleStack s2.cfg km ip chain) = r
+      obtain ⟨hh, hl, _, pre, u, hout, hpre, hu1, hu2, hu3, hu4, hu5, hu6⟩ :=
+        sampleThread_spec s2 th pid tid t period (sampleStack s2.cfg km ip chain)
+      rw [hr] at hh hl hout
+      obtain ⟨hinv3, hcfg3, hpe3, hte3, hbuf3, htl3⟩ := commit_spec r hs2.inv (by rw [hpid2]; exact hp2) hth hh
+      refine ⟨hcfg3.trans hs2.hcfg, hinv3, ?_, ?_, ?_, ?_⟩
+      · rw [hcfg3, hpe3, hte3]
+        intro u' hu'
+        have hbind : ∀ x : USample, x.th = th.h → x.gpid = pid → x.gtid = tid →
+            x.th < (tsk s2.tents).length ∧ (s2.cfg.reuse = false → ∃ ph, (tsk s2.tents)[x.th]? = some (ph, x.gtid) ∧
+              (psk s2.pents)[ph]? = some x.gpid) := by
+          intro x e1 e2 e3
+          rw [e1, e2, e3]
+          refine ⟨hthlt, fun hr' => ⟨p2.h, ?_⟩⟩
+          have := hthbind hr'
           rw [hpid2] at this
           exact this
+        rcases List.mem_append.mp (hbuf3.mem_iff.mp hu') with hu' | hu'
+        · exact hs2.sok u' hu'
+        · rw [hout] at hu'
+          rcases List.mem_append.mp hu' with hu' | hu'
+          · obtain ⟨⟨e1, e2, e3⟩, _⟩ := hpre u' hu'
+            exact hbind u' e1 e2 e3
+          · simp only [List.mem_singleton] at hu'
+            subst hu'
+            exact hbind _ hu1 hu2 hu3
       · intro a b
         refine (htl3 a b).trans ?_
-        rw [lastGet_lastSet, hpid2]
+        rw [lastGet_lastSet, hpid2, hl]
         by_cases hab : a = pid ∧ b = tid
         · simp only [hab, and_self, if_true]
         · simp only [hab, if_false]
           exact hs2.htl a b
-      · refine (hbuf3.map proj).trans ?_
-        simp only [List.map_append, List.map_cons, List.map_nil]
+      · refine ((hbuf3.filter _).map proj).trans ?_
+        rw [hout, ← List.append_assoc, List.filter_append, filter_synth_append_synth _ _ (fun x hx => (hpre x hx).2)]
+        simp only [List.filter_cons, List.filter_nil, hu4, Bool.not_false, if_true, List.map_append, List.map_cons,
+          List.map_nil]
         refine List.Perm.append hs2.buf ?_
-        simp only [proj, conv, hs2.hcfg]
+        simp only [proj, hu2, hu3, hu5, conv, hs2.hcfg]
         exact List.Perm.refl _
+      · intro u' hu' hsy
+        rcases List.mem_append.mp (hbuf3.mem_iff.mp hu') with hu' | hu'
+        · exact hs2.w1 u' hu' hsy
+        · rw [hout] at hu'
+          rcases List.mem_append.mp hu' with hu' | hu'
+          · rw [(hpre u' hu').2] at hsy; cases hsy
+          · simp only [List.mem_singleton] at hu'
+            subst hu'; exact hu6
+
+/-- SWITCH records and sched_switch samples: only the thread bound to (pid, tid) and synthesized samples -/
+theorem step_cs_sim {cfg : Config} {s : St} {st : Last × List Acc} (h : Sim cfg s st) (pid tid : Nat)
+    (f : St → ThreadC → ThreadC × List USample × Bool)
+    (hf : ∀ s2 th, (f s2 th).1.h = th.h ∧ (f s2 th).1.lastTs = th.lastTs ∧
+      ∀ u ∈ (f s2 th).2.1, (u.th = th.h ∧ u.gpid = pid ∧ u.gtid = tid) ∧ u.synth = true) :
+    Sim cfg (let (s1, p) := getByPid s pid
+             let (s2, p, th) := getThread s1 p tid
+             commitThread s2 p tid (f s2 th)) st := by
+  generalize hgb : getByPid s pid = r1
+  obtain ⟨s1, p1⟩ := r1
+  dsimp only
+  generalize hgt : getThread s1 p1 tid = r2
+  obtain ⟨s2, p2, th⟩ := r2
+  dsimp only
+  obtain ⟨g1, hp1⟩ := getByPid_spec h.inv hgb
+  have hpid1 := (g1.inv.get hp1).1
+  obtain ⟨g2, hp2, hpid2, hth⟩ := getThread_spec g1.inv (by rw [hpid1]; exact hp1) hgt
+  rw [hpid1] at hp2 hpid2
+  have hs2 := h.goodT (g1.trans g2)
+  obtain ⟨a1, a2, a3⟩ := hf s2 th
+  exact commit_sim (s := s) hs2 (f s2 th) hp2 hpid2 hth a1 a2 a3
 
 /-! ## the other records -/
 
@@ -410,6 +520,24 @@ theorem step_sim {cfg : Config} {s : St} {st : Last × List Acc} (h : Sim cfg s 
   | comm pid tid name isExec t => exact step_comm_sim h pid tid name isExec t
   | mmap2 pid tid addr len pgoff exec path t =>
     exact h.goodT (step_mmap2_goodT h.inv pid tid addr len pgoff exec path t)
+  | switchIn pid tid t =>
+    simp only [step, accStep]
+    split
+    · exact h
+    · exact step_cs_sim h pid tid (fun s2 th => wake s2 th (.switchIn t) pid tid)
+        (fun s2 th => by obtain ⟨a, b, _, d⟩ := wake_spec s2 th (.switchIn t) pid tid; exact ⟨a, b, d⟩)
+  | switchOut pid tid t =>
+    simp only [step, accStep]
+    split
+    · exact h
+    · exact step_cs_sim h pid tid (fun s2 th => switchOutThread s2 th t)
+        (fun s2 th => ⟨rfl, rfl, fun u hu => by simp [switchOutThread] at hu⟩)
+  | sched pid tid t km ip chain =>
+    simp only [step, accStep]
+    exact step_cs_sim h pid tid (fun s2 th => schedThread s2 th t (sampleStack s2.cfg km ip chain))
+      (fun s2 th => by
+        obtain ⟨a, b, _, d⟩ := schedThread_spec s2 th t (sampleStack s2.cfg km ip chain)
+        exact ⟨a, b, fun u hu => by rw [d] at hu; simp at hu⟩)
 
 theorem foldl_sim {cfg : Config} (rs : List Rec) {s : St} {st : Last × List Acc} (h : Sim cfg s st) :
     Sim cfg (rs.foldl step s) (rs.foldl accStep st) := by
